@@ -379,3 +379,19 @@ Lemma decompose_example_ok :
   decompose_rings [ [(0,0);(10,0);(10,10);(0,10)]; [(1,9);(9,9);(9,1);(1,1)]; [(2,2);(8,2);(8,8);(2,8)];
                     [(3,4);(4,4);(4,3);(3,3)]; [(20,0);(22,0);(22,2);(20,2)] ] = [[0; 1]; [2; 3]; [4]].
 Proof. vm_compute. reflexivity. Qed.
+
+(* ---- what the containment oracle is in the code: RingInside ---- *)
+Lemma ring_inside_spec : forall a b : contour,
+  ring_inside a b = true <-> bbox_inside a b = true /\ forall p, In p a -> point_in_ring p b = true.
+Proof.
+  intros a b. unfold ring_inside. rewrite andb_true_iff, forallb_forall. tauto.
+Qed.
+
+(* one vertex does not decide: a hole whose first stored vertex touches a thin bracket (the
+   bracket's bounding box contains the hole's) has that vertex in the closed bracket, yet is not inside it *)
+Lemma first_vertex_insufficient_witness :
+  let H := [(7, 3); (5, 6); (9, 6)] in
+  let B := [(0, 0); (14, 0); (14, 7); (13, 7); (13, 1); (8, 1); (7, 3); (6, 1); (1, 1); (1, 7); (0, 7)] in
+  point_in_ring (hd (0, 0) H) B = true /\ bbox_inside H B = true /\ ring_inside H B = false.
+Proof. vm_compute. repeat split; reflexivity. Qed.
+
